@@ -54,6 +54,7 @@ void hll_union_alloc<A>::update(hll_sketch_alloc<A>&& sketch) {
   if (gadget_.is_empty() && sketch.get_target_type() == HLL_8 && sketch.get_lg_config_k() <= lg_max_k_) {
     if (sketch.get_current_mode() == HLL || sketch.get_lg_config_k() == lg_max_k_) {
       gadget_ = std::move(sketch);
+      return; // sketch now holds the former, empty gadget: there is nothing left to merge
     }
   }
   union_impl(sketch, lg_max_k_);
